@@ -9,12 +9,18 @@
         call = R <res> <nprop> (<tag> <tree>)… (N | E <tag> <tree>)
         end  = ok | panic:<kind>
 
+    c15.k8s <split> <max> <cutOff> <cutField|-> <n> item…
+        item = T <tag> | E <tag> <size> <A|N|S> <frag> <raw JSON text of the value|->
+    result = (R <res> (N 0 | L <escaped log> <cut>) <exceeded>)… (ok | panic:<kind> | fatal)
+
   The regular expressions (`c15.join`) and template names (`c15.jt`) are for the harness only:
   the model sees the oracle bits the harness computed with them.
 -/
 import FileD.Prelude.Tok
 import FileD.Model.Join
 import FileD.Spec.C15
+import FileD.Model.K8sMultiline
+import FileD.Spec.C15K8s
 namespace FileD.DrvC15
 open FileD Tok FileD.Join
 
@@ -104,6 +110,60 @@ def encOut (o : Out) : String :=
 def encTrace (outs : List Out) (fin : GoM α) : String :=
   unwords (outs.map encOut ++ [match fin with | .ok _ => "ok" | .error p => panicTok p])
 
+/-! ### k8s -/
+
+def pKItem : P K8s.In
+  | "T" :: r => do
+    let (t, r) ← pNat r
+    pure (.timeout t, r)
+  | "E" :: r => do
+    let (t, r) ← pNat r
+    let (sz, r) ← pNat r
+    match r with
+    | kind :: r => do
+      let (frag, r) ← pBytes r
+      match r with
+      | _raw :: r =>
+        match kind with
+        | "A" => pure (.ev ⟨t, sz, .absent⟩, r)
+        | "N" => pure (.ev ⟨t, sz, .nonString⟩, r)
+        | "S" => pure (.ev ⟨t, sz, .str frag⟩, r)
+        | _ => none
+      | [] => none
+    | [] => none
+  | _ => none
+
+def pKOut : P K8s.Out
+  | "R" :: r => do
+    let (res, r) ← pRes r
+    match r with
+    | "N" :: _ :: r => do
+      let (ex, r) ← pBool r
+      pure (⟨res, none, false, ex⟩, r)
+    | "L" :: r => do
+      let (l, r) ← pBytes r
+      let (cut, r) ← pBool r
+      let (ex, r) ← pBool r
+      pure (⟨res, some l, cut, ex⟩, r)
+    | _ => none
+  | _ => none
+
+/-- calls up to the end marker; `ended` = the marker is not `ok` (panic or process exit) -/
+def pKImpl : Nat → List String → Option (List K8s.Out × Bool)
+  | _, ["ok"] => some ([], false)
+  | _, [t] => if t.startsWith "panic:" || t == "fatal" then some ([], true) else none
+  | 0, _ => none
+  | fuel+1, ts => do
+    let (o, r) ← pKOut ts
+    let (os, p) ← pKImpl fuel r
+    pure (o :: os, p)
+
+def encKOut (o : K8s.Out) : String :=
+  unwords (["R", o.res.tok] ++
+    (match o.log with
+     | none => ["N", "0"]
+     | some l => ["L", Hex.enc l, ofBool o.cut]) ++ [ofBool o.exceeded])
+
 def handle (cmd : String) (args impl : List String) : Option (String × String) :=
   match cmd with
   | "c15.join" => do
@@ -137,6 +197,24 @@ def handle (cmd : String) (args impl : List String) : Option (String × String) 
     let p := match pImpl (impl.length + 1) impl with
       | some (outs, panicked) =>
         if SpecC15.holds tcfg.join (SpecC15.resolve tcfg (-1) items) outs panicked then "ok" else "fail"
+      | none => "bad-impl"
+    pure (m, p)
+  | "c15.k8s" => do
+    let (split, r) ← pNat args
+    let (max, r) ← pNat r
+    let (cutOff, r) ← pBool r
+    let (field, r) ← pBytes r
+    let (items, r) ← pCounted pKItem r
+    if r ≠ [] then none
+    let cfg : K8s.Cfg := ⟨(split : Nat), max, cutOff, !field.isEmpty⟩
+    let t := K8s.run cfg K8s.St.init items
+    let m := unwords (t.outs.map encKOut ++ [match t.fin with | .ok _ => "ok" | .error p => panicTok p])
+    let p := match pKImpl (impl.length + 1) impl with
+      | some (outs, ended) =>
+        if !SpecC15K8s.holds cfg items outs ended then "fail"
+        else if max == 0 && SpecC15K8s.contentOut outs ++ (SpecC15K8s.finalLine cfg SpecC15K8s.Line.empty items).content
+            != SpecC15K8s.contentIn items then "loss"
+        else "ok"
       | none => "bad-impl"
     pure (m, p)
   | _ => none
